@@ -34,6 +34,19 @@ var propInfo = map[string]struct {
 			"A-STORE: Put/BatchPut/Delete/BatchDelete apply their arguments in order; that a following select observes the writes is C01 on the new state",
 			"not yet under contract for this property: parser.parsePut/parseRemove and the statement validators",
 		}},
+	"C18": {"proof",
+		"Tightness of the planner, on the same functions as C02: each key-pinning atom yields exactly its documented scan type and literals (= / IN -> point reads, ^= -> prefix, > >= < <= / BETWEEN -> range, false and key < '' -> empty); every intersection helper and optimizeAndExpr return a region contained in one operand's region (two ghost keys), disjoint equalities / prefixes / ranges give EMPTY; Optimize() maps each scan type to the corresponding plan kind with the same keys; and the scan plans read, through their cursor, only keys of the region plus at most the one that ends it (PrefixScanPlan / RangeScanPlan Init seek to the region start; MultiGetPlan issues exactly one Get per listed key; EmptyResultPlan issues no storage operation).",
+		[]string{
+			"A-COMP-C18: the per-construct statements (atoms, AND, plan kind, scan region) compose to the property by a paper argument over the predicate tree",
+			"A-STORE: Seek(p) positions a snapshot cursor at the first key >= p; keys ascend strictly (axiom csorted)",
+			"the Batch forms of the scan plans are not yet under contract (the row forms are)",
+		}},
+	"C13": {"proof",
+		"Typestate of storage errors and read-only frames: every Storage / Cursor operation requires !failed and sets failed / lastErr on error; every plan function under contract has the postcondition failed ==> err == lastErr (the error is returned unchanged) and, by its precondition obligations at the call sites, issues no storage operation once one has failed; the scan plans, filter and limit plans have frames without the ghost write counters (nmut unchanged: no mutating call); buildDeletePlan returns only after Init and surfaces its error.",
+		[]string{
+			"scope: proved per API call of the functions listed under functions_under_contract; ProjectionPlan, FinalOrderPlan, AggregatePlan, the Batch forms of the scans and buildPlan/BuildPlan are not yet under contract for this property",
+			"A-STORE: the Storage implementation reports failure only through the returned error",
+		}},
 }
 
 func propLevel(p string) (string, bool) {
